@@ -74,8 +74,9 @@ def gen_case(rng: random.Random, tier: str):
         if r < 0.3:
             ops.append({"op": "deref", "s": s})
         elif r < 0.4:
-            ops.append({"op": "arith", "s": s, "d": rng.choice([1, 2, -1, 4, -3, 8]), "o": rng.choice(["+", "+", "-", "&", "|", "^", "*", "//", "%", "<<", ">>"]),
-                        "deref_first": rng.random() < 0.5})
+            ops.append({"op": "arith", "s": s, "d": rng.choice([1, 2, -1, 4, -3, 8]), "o": rng.choice(["+", "+", "-", "-", "&", "|", "^", "*", "//", "%", "<<", ">>", "**"]),
+                        "deref_first": rng.random() < 0.5, "dk": rng.choice(["int", "int", "int", "ptr", "ptr_other", "typed", "bool"]),
+                        "s2": rng.randrange(len(slots))})
         elif r < 0.5:
             ops.append({"op": "attr", "s": s})
         elif r < 0.58:
@@ -351,21 +352,43 @@ def run_case(case, stats):
                 if o == "+" and d < 0:
                     o, d = "-", -d
                 fn = {"+": operator.add, "-": operator.sub, "&": operator.and_, "|": operator.or_, "^": operator.xor, "*": operator.mul,
-                      "//": operator.floordiv, "%": operator.mod, "<<": operator.lshift, ">>": operator.rshift}[o]
+                      "//": operator.floordiv, "%": operator.mod, "<<": operator.lshift, ">>": operator.rshift, "**": operator.pow}[o]
+                # the right operand: a plain int, another pointer (same class on the same stream / the pointer held by
+                # another field), a typed integer of the library, a bool
+                dk = op.get("dk", "int")
+                dv = d
+                if dk == "ptr":
+                    d = abs(d)
+                    dv = type(p).__new__(type(p), d, stream, None)
+                elif dk == "ptr_other" and op.get("s2") is not None:
+                    other = ptr_of(cur, case["slots"][op["s2"] % len(case["slots"])])
+                    if isinstance(other, Pointer) and (o not in ("<<", ">>", "**") and (o not in ("//", "%") or int.__index__(other))):
+                        dv, d = other, int.__index__(other)
+                    else:
+                        dk = "int"
+                elif dk == "typed":
+                    d = abs(d)
+                    dv = cs.uint16(d)
+                elif dk == "bool":
+                    d, dv = 1, True
+                if o == "**":
+                    d = 1 + d % 2
+                    dv = d if dk in ("int", "bool") else (type(dv).__new__(type(dv), d, stream, None) if isinstance(dv, Pointer) else type(dv)(d))
+                stats.count("probe.arith_operand_" + dk)
                 if op.get("deref_first") and a:
                     try:
                         p.dereference()  # the source now holds a cached target; the derived pointer must not inherit it
                     except Exception:  # noqa: BLE001
                         pass
                 try:
-                    q = fn(p, d)
+                    q = fn(p, dv)
                 except Exception as e:  # noqa: BLE001
-                    raise Violation("arithmetic", "raised", f"{p!r} {o} {d}: {type(e).__name__}")
+                    raise Violation("arithmetic", "raised", f"{p!r} {o} {dv!r}: {type(e).__name__}")
                 na = fn(a, d)
                 stats.count("evaluations")
                 stats.count("probe.arith_" + o)
                 if type(q) is not type(p) or int.__index__(q) != na:
-                    raise Violation("arithmetic", "type_or_value", f"{p!r} {o} {d} -> {q!r} of type {type(q).__name__}, expected {type(p).__name__} {na}")
+                    raise Violation("arithmetic", "type_or_value", f"{p!r} {o} {dv!r} ({dk}) -> {q!r} of type {type(q).__name__}, expected {type(p).__name__} {na}")
                 if 0 < na <= maxaddr and a != 0:
                     check_deref(q, f, f["depth"], na, f"({sl['f']}[{sl['j']}] {o} {d})")
             elif k == "attr":
